@@ -532,6 +532,7 @@ def analyse(repo, tier='quick'):
         return _CACHE[key]
     sim = GenSim(repo)
     _install_node_construction(sim)
+    NODE_ATTRS.clear()
     del TRUNCATED[:]
     sh = Shapes(repo, sim)
     rules = sorted({r for r, _ in R.parse_actions(repo)})
@@ -552,6 +553,8 @@ def analyse(repo, tier='quick'):
            'unmodelled': sorted(set(sh.unmodelled))[:60],
            'n_unmodelled': len(set(sh.unmodelled)),
            'dropped_shapes': sum(TRUNCATED),
+           'node_attrs': {c: {a: sorted(v) for a, v in sorted(d.items())}
+                          for c, d in sorted(NODE_ATTRS.items())},
            'samples': [{'rule': r, 'shapes': [show_shape(s) for s in
                                               sorted(sh.action_in.get(r, ()),
                                                      key=canon_key)[:4]]}
@@ -572,6 +575,9 @@ def _dedupe(problems):
     return list(seen.values())
 
 
+NODE_ATTRS = {}
+
+
 def _install_node_construction(sim):
     """Calling a node class constructs an ANode and interprets its
     __init__ (so constructor asserts are checked)."""
@@ -585,6 +591,23 @@ def _install_node_construction(sim):
                 clo = Closure(init.node, sim.module_env(init.module.name),
                               name=f'{ci.name}.__init__')
                 clo.call_([n] + list(args), dict(kwargs), interp)
+            # which attributes of this class hold nodes (for the
+            # child_fields completeness rule)
+            slot = NODE_ATTRS.setdefault(ci.name, {})
+            for a, v in n.fields.items():
+                if isinstance(v, ANode):
+                    slot.setdefault(a, set()).add(v.cls)
+                elif isinstance(v, (list, tuple)) or hasattr(v, 'items'):
+                    items = getattr(v, 'items', v)
+                    if callable(items):
+                        continue
+                    for x in items:
+                        if isinstance(x, ANode):
+                            slot.setdefault(a, set()).add(x.cls)
+                        elif isinstance(x, (list, tuple)):
+                            for y in x:
+                                if isinstance(y, ANode):
+                                    slot.setdefault(a, set()).add(y.cls)
             return n
         return AClass._orig_call(self, args, kwargs, interp)
     if not hasattr(AClass, '_orig_call'):
@@ -642,3 +665,36 @@ def check_parse_actions(ctx, pid):
     if res['n_unmodelled']:
         ctx.observe(f'grammar shape analysis: {res["n_unmodelled"]} '
                     f'unmodelled (rule, action) paths; undecided')
+
+
+def check_child_fields(ctx, pid):
+    """Every attribute in which a parse action stores a node (or a list of
+    nodes) is listed in the class's child_fields: Node.children -- and with
+    it the tree walk of the passes and the per-line position fix-up
+    (update_node_loc) -- visits nothing else."""
+    res = analyse(ctx.repo, ctx.tier)
+    rule = f'{pid}.child-fields-list-every-node-attribute'
+    ctx.rule(rule, 'for every node class, each attribute that a parse '
+             'action fills with a node or a list of nodes (found by '
+             'interpreting the parse actions and the class __init__ on the '
+             'token shapes of the grammar) is named in child_fields, so the '
+             'pass walk and the source-position fix-up reach it')
+    ncls = {c.name: c for c in R.node_classes(ctx.repo)}
+    n = 0
+    for cname, attrs in sorted(res['node_attrs'].items()):
+        ci = ncls.get(cname)
+        if ci is None:
+            continue
+        cf = R.child_fields(ctx.repo, ci) or []
+        n += 1
+        ctx.instance(rule, f'{ci.file}:{cname}', nontrivial=bool(attrs),
+                     sample={'child_fields': cf, 'node_attrs': sorted(attrs)})
+        for a, classes in sorted(attrs.items()):
+            if a not in cf:
+                ctx.finding(rule, f'{ci.file}:{cname}.{a}',
+                            f'{cname}.{a} receives {sorted(classes)[:4]} '
+                            f'node(s) from its parse action but is not in '
+                            f'child_fields {cf}: the passes never visit '
+                            f'these nodes and their source positions are '
+                            f'not adjusted to the line', ci.file, ci.line)
+    ctx.floor('node classes constructed by parse actions', n, 60)
